@@ -117,14 +117,14 @@ class Simulator:
                     (
                         "time",
                         self.model.get_variable_names(),
-                        self.model.get_parameter_names(),
+                        list(self.model.get_parameter_values()),
                     ),
                     _jac,
                 )
                 jac_fn = lambda t, x: _jac_fn(  # noqa: E731
                     t,
                     x,
-                    self.model._parameters.values(),  # noqa: SLF001
+                    list(self.model.get_parameter_values().values()),
                 )
 
             except Exception as e:  # noqa: BLE001
